@@ -230,6 +230,11 @@ fn replay(path: &str) -> i32 {
 }
 
 fn check_main(id: &str, tier: Tier) -> i32 {
+    // per-cell time slice of the real-socket engines (a cell that uses it up stops and reports "capped"): 45 s in the quick
+    // tier, 300 s in the thorough tier; shards inherit the setting
+    if tier == Tier::Thorough && std::env::var("VERIF_CELL_SECS").is_err() {
+        std::env::set_var("VERIF_CELL_SECS", "300");
+    }
     let vd = verif_dir();
     let t0 = Instant::now();
     let seed: i64 = std::env::var("VERIF_SEED").ok().and_then(|s| s.parse().ok()).unwrap_or(0);
